@@ -311,12 +311,13 @@ def t_grid(T, tier):
         w.under_verification = MOD + '.dump_grid'
 
         def run(it, ver=ver):
-            vs = [SVal(it.ctx.fresh('v%d' % i, smt.VAL)) for i in range(6)]
+            vs = [SVal(it.ctx.fresh('v%d' % i, smt.VAL)) for i in range(8)]
             gcls = w.class_ref(extract.module('hszinc.grid'), 'Grid')
             marker = HV.singleton(it, w, 'MARKER')
             g = it.call(gcls, [], {'version': ver, 'metadata': {'m1': vs[0], 'mk': marker}, 'columns': [('c1', {'u': vs[1], 'k': marker}), ('c2', {})]})
             it.call_method(g, 'append', [{'c1': vs[2], 'c2': vs[3]}])
             it.call_method(g, 'append', [{'c2': vs[4]}])
+            it.call_method(g, 'append', [{'c2': vs[5], 'c1': vs[6]}])       # a full row whose key order is not the column order
             out = it.call(w.function(MOD, 'dump_grid'), [g])
             ok = isinstance(out, Shape)
             it.ctx.oblige('dump_grid/ensures.returns_text', z3.BoolVal(ok))
@@ -331,7 +332,7 @@ def t_grid(T, tier):
                 else:
                     seq.append(('cell', p.den[0]))
             want = ['ver:"', ('ver', ver), '" m1:', ('cell', vs[0]), ' mk\nc1 u:', ('cell', vs[1]), ' k,c2\n', ('cell', vs[2]), ',', ('cell', vs[3]), '\n',
-                    ('cell', None), ',', ('cell', vs[4]), '\n']
+                    ('cell', None), ',', ('cell', vs[4]), '\n', ('cell', vs[6]), ',', ('cell', vs[5]), '\n']
             same = len(seq) == len(want) and all((a == b) if isinstance(a, str) or isinstance(b, str) else (a[0] == b[0] and (a[1] is b[1] or a[1] == b[1])) for a, b in zip(seq, want))
             o = it.ctx.oblige('dump_grid/ensures.header_columns_one_line_per_row_every_cell_present', z3.BoolVal(bool(same)))
             if not same:
@@ -339,5 +340,5 @@ def t_grid(T, tier):
             gv = g.fields['_version']
             vers = [p.den[1] for p in out.parts if isinstance(p, Field) and p.kind == 'cell']
             it.ctx.oblige('dump_grid/ensures.every_value_written_under_the_grid_version', z3.BoolVal(all(v is gv for v in vers)))
-            it.ctx.oblige('dump_grid/frame.grid_unchanged', z3.BoolVal(len(g.fields['_row']) == 2 and list(g.fields['metadata'].fields['_order']) == ['m1', 'mk']))
+            it.ctx.oblige('dump_grid/frame.grid_unchanged', z3.BoolVal(len(g.fields['_row']) == 3 and list(g.fields['metadata'].fields['_order']) == ['m1', 'mk']))
         T.explore(w, run, 'dump_grid/ver=%s' % ver)
